@@ -406,7 +406,7 @@ theorem inv_execInstr (i : Instr) {m : M} (h : m.Inv) : (execInstr i m).Inv := b
     have hp := inv_mpopV h
     split
     · exact inv_log _ hp
-    · exact inv_log _ hp
+    · exact inv_mpushV _ (inv_log _ hp)
     · split
       · exact inv_finishOp _ hp
       · exact inv_log _ hp
@@ -415,11 +415,11 @@ theorem inv_execInstr (i : Instr) {m : M} (h : m.Inv) : (execInstr i m).Inv := b
     have hp := inv_mpopV h
     split
     · exact inv_log _ hp
-    · exact inv_log _ hp
+    · exact inv_mpushV _ (inv_mpopV (inv_log _ hp))
     · have hp2 := inv_mpopV hp
       split
       · exact inv_log _ hp2
-      · exact inv_log _ hp2
+      · exact inv_mpushV _ (inv_log _ hp2)
       · split
         · exact inv_finishOp _ hp2
         · exact inv_log _ hp2
